@@ -2,6 +2,13 @@
 
 package service
 
+import (
+	"fmt"
+	"sort"
+	"strings"
+	"time"
+)
+
 // Accessors for the verification harness (added to the build by overlay under
 // tag verif; nothing in the repository refers to them).
 
@@ -19,5 +26,32 @@ func (v *VerifParser) Pending() (history int, transfers int) {
 	return len(v.p.historyData), len(v.p.subcontractingRecord)
 }
 
-// Complete reports whether msg is a complete message (not a lone sub-package).
+// State renders the reassembler state canonically: per open transfer its slot
+// occupancy and its age / idle time relative to now; plus the buffered bytes.
+func (v *VerifParser) State(now time.Time) string {
+	var ids []int
+	for id := range v.p.subcontractingRecord {
+		ids = append(ids, int(id))
+	}
+	sort.Ints(ids)
+	var b strings.Builder
+	fmt.Fprintf(&b, "h=%x;", v.p.historyData)
+	for _, id := range ids {
+		fmt.Fprintf(&b, "%04x:", id)
+		for _, s := range v.p.subcontractingRecord[uint16(id)] {
+			if len(s) == 0 {
+				b.WriteByte('.')
+			} else {
+				b.WriteByte('#')
+			}
+		}
+		if t, ok := v.p.timeoutRecord[uint16(id)]; ok {
+			fmt.Fprintf(&b, "@%d/%d", now.Sub(t.createTime)/time.Millisecond, now.Sub(t.updateTime)/time.Millisecond)
+		}
+		b.WriteByte(';')
+	}
+	return b.String()
+}
+
+// VerifComplete reports whether msg is a complete message (not a lone sub-package).
 func VerifComplete(m *Message) bool { return m.hasComplete() }
